@@ -134,7 +134,7 @@ def combos(selector, first):
 
 
 def shards(tier):
-    out = []
+    out = [("wrapped", ())]
     for pi, (content, shape, modes, selector) in enumerate(plans(tier)):
         if selector == "triples":
             for pos, first in enumerate(CORE):
@@ -334,9 +334,101 @@ def run_case(content, shape, mode, ids, res):
     return sig, f"{content}/{shape}/{mode} + {list(ids)}: {detail}\n--- schema ---\n{text}"
 
 
+def wrapped_schemas():
+    """Programmatic schemas with a WRAPPED type (list / non-null) where only a named type of a certain kind is allowed - the
+    constructors accept them, SDL cannot express them.  Every one is invalid.  Each position comes with and without the second
+    shape that makes other validation steps look at the bad reference (an implementing type, a covariance check)."""
+    import graphql as g
+
+    L, NN = g.GraphQLList, g.GraphQLNonNull
+    wraps = [("list", L), ("nonnull", NN), ("nonnull_list", lambda t: NN(L(t))), ("list_nonnull", lambda t: L(NN(t)))]
+    out = []
+    for wn, w in wraps:
+        def base():
+            obj = g.GraphQLObjectType("Obj", {"f": g.GraphQLField(g.GraphQLString)})
+            q = g.GraphQLObjectType("Query", {"o": g.GraphQLField(obj)})
+            return obj, q
+
+        for op in ("query", "mutation", "subscription"):
+            for with_query in (True, False):
+                obj, q = base()
+                kw = {op: w(obj)}
+                if op != "query" and with_query:
+                    kw["query"] = q
+                out.append((f"root:{op}:{wn}:{'with' if with_query else 'without'}_query", lambda kw=kw: g.GraphQLSchema(**kw)))
+        for impl in (False, True):
+            def union_case(impl=impl):
+                obj, _q = base()
+                u = g.GraphQLUnionType("U", [w(obj)])
+                i = g.GraphQLInterfaceType("I", {"u": g.GraphQLField(u)})
+                q = g.GraphQLObjectType("Query", {"u": g.GraphQLField(obj if impl else u)}, interfaces=[i] if impl else [])
+                return g.GraphQLSchema(query=q, types=[u, i, obj])
+            out.append((f"union_member:{wn}:{'covariance' if impl else 'plain'}", union_case))
+
+            def ancestor_case(impl=impl):
+                i0 = g.GraphQLInterfaceType("I0", {"a": g.GraphQLField(g.GraphQLInt)})
+                i = g.GraphQLInterfaceType("I", {"a": g.GraphQLField(g.GraphQLInt)}, interfaces=[w(i0)])
+                q = g.GraphQLObjectType("Query", {"a": g.GraphQLField(g.GraphQLInt)}, interfaces=[i] if impl else [])
+                return g.GraphQLSchema(query=q, types=[i0, i])
+            out.append((f"interface_ancestor:{wn}:{'implemented' if impl else 'plain'}", ancestor_case))
+
+            def object_iface_case(impl=impl):
+                i0 = g.GraphQLInterfaceType("I0", {"a": g.GraphQLField(g.GraphQLInt)})
+                t = g.GraphQLObjectType("T", {"a": g.GraphQLField(g.GraphQLInt)}, interfaces=[w(i0)])
+                q = g.GraphQLObjectType("Query", {"t": g.GraphQLField(i0 if impl else t)})
+                return g.GraphQLSchema(query=q, types=[i0, t])
+            out.append((f"object_interface:{wn}:{'abstract_field' if impl else 'plain'}", object_iface_case))
+    return out
+
+
+def run_wrapped(res):
+    from graphql import GraphQLError, graphql_sync, validate_schema
+
+    for label, make in wrapped_schemas():
+        res.states += 1
+        res.transitions += 1
+        try:
+            schema = make()
+        except (TypeError, ValueError):
+            res.count("wrapped_reference_refused_by_constructor")
+            continue  # the constructor refuses it: nothing to validate
+        res.executions += 1
+        res.evaluations += 1
+        payload = {"wrapped": label}
+        try:
+            errs = validate_schema(schema)
+        except Exception as e:  # noqa: BLE001
+            res.violation(f"validate_schema_raises:{type(e).__name__}@{_where(e)}",
+                          f"programmatic schema with a wrapped type reference ({label}): validate_schema raised {type(e).__name__}: {e}", payload)
+            continue
+        if not isinstance(errs, list) or not errs or not all(isinstance(e, GraphQLError) for e in errs):
+            res.violation("accepts_invalid:wrapped_reference", f"{label}: validate_schema returned {errs!r}", payload)
+            continue
+        try:
+            again = validate_schema(schema)
+            for e in errs:
+                str(e)
+                e.formatted  # noqa: B018
+            r = graphql_sync(schema, "{ __typename }")
+        except Exception as e:  # noqa: BLE001
+            res.violation(f"request_or_rendering_raises:{type(e).__name__}@{_where(e)}", f"{label}: {type(e).__name__}: {e}", payload)
+            continue
+        if [e.message for e in again] != [e.message for e in errs]:
+            res.violation("second_validate_differs", f"{label}", payload)
+            continue
+        if r.data is not None or not r.errors:
+            res.violation("request_executes_on_invalid_schema", f"{label}: {r}", payload)
+            continue
+        res.outcome(("wrapped", label, tuple(e.message for e in errs)))
+    res.sample({"family": "wrapped type references (programmatic only)", "positions": ["root", "union member", "interface ancestor", "object interface"]}, 1)
+
+
 def run_shard(shard, tier):
     res = Result()
     pi, firsts = shard
+    if pi == "wrapped":
+        run_wrapped(res)
+        return res
     content, shape, modes, selector = plans(tier)[pi]
     res.max_depth = 3 if selector == "triples" else 2
     for first in firsts:
@@ -363,5 +455,8 @@ def run_shard(shard, tier):
 
 def replay(payload):
     res = Result()
+    if "wrapped" in payload:
+        run_wrapped(res)
+        return [{"signature": v["signature"], "summary": v["summary"]} for v in res.violations if v["replay"] == payload]
     v = run_case(payload["content"], payload["shape"], payload["mode"], tuple(payload["ids"]), res)
     return [] if v is None else [{"signature": v[0], "summary": v[1]}]
